@@ -23,6 +23,9 @@ pub const TRACE_POP: u8 = 5;
 /// `cycle_refs` visits this box.
 pub const TRACE_VISIT: u8 = 6;
 
+/// `drop_cycle` starts; the argument is the number of members, not an address.
+pub const GROUP: u8 = 7;
+
 static HOOK: AtomicUsize = AtomicUsize::new(0);
 
 /// Install the callback; it receives the event kind and the `RcBox` address.
